@@ -5,12 +5,14 @@
 //!   lace-verif replay <ID> <file>...            strict replay of saved cases
 //!   lace-verif list
 
+mod dbgcheck;
 mod engine;
 mod gen;
 mod lacebox;
 mod proggen;
 mod props;
 mod refasm;
+mod refdbg;
 mod refvm;
 
 use std::collections::BTreeSet;
